@@ -260,15 +260,18 @@ def gen_case(rng, tier):
     else:
         nmax = 3 if rng.random() < .6 else 4
         for _ in range(50):
-            pc = gen_pomdp.gen_pomdp(rng, nmax=nmax, amax=3, omax=3, gamma=gamma)
+            pc = gen_pomdp.gen_pomdp(rng, nmax=nmax, amax=3, omax=3, gamma=gamma, near_twin=.15)
             if (pc["nO"] >= 2 or rng.random() < .1) and (pc["nA"] >= 2 or rng.random() < .15):
                 break
     fullobs = r >= .35 and rng.random() < .25
     if fullobs:
+        pc.pop("obs_near_twin", None)
         pc["nO"] = pc["n"]
         pc["obs"] = {"%d,%d" % (a, ns): [[ns, "1"]] for a in range(pc["nA"]) for ns in range(pc["n"])}
         pc["obs_kinds"] = ["identity"] * pc["nA"]
     # ---- boundary variants ----
+    if pc.get("obs_near_twin"):
+        variants.append("observation-near-twin-2^-30")    # gen_pomdp opt-in: two posteriors ~1e-9 apart
     if pc["nA"] <= 2 and rng.random() < .2:
         variants.append("duplicate-action-" + dup_action(rng, pc))
     if rng.random() < .3:
@@ -289,7 +292,7 @@ def gen_case(rng, tier):
            "eps": rng.choice(EPSS + ["1/100", "1", "0"]), "horizon": rng.choice([None, None, 1, 3, 10])}
     if fullobs:
         cfg["min_exp"], cfg["max_exp"] = 3, rng.choice([2, 4])
-    if "probability-2^-30" in variants:
+    if "probability-2^-30" in variants or "observation-near-twin-2^-30" in variants:
         cfg["horizon"] = rng.choice([1, 3])       # exact arithmetic gains 30 bits per sweep on these
     if gamma in ("0", NEAR1) or cfg["eps"] == "0":
         # horizon=None would need 0 sweeps (gamma=0: raises, reported separately) / ~1e7 sweeps / log(0)
@@ -325,7 +328,8 @@ def gen_case(rng, tier):
 
 def heavy(case):
     """cases whose exact arithmetic grows fast (2^-30 probabilities, gamma = 1 - 2^-20)"""
-    return "probability-2^-30" in case.get("variants", []) or case["pomdp"]["gamma"] == NEAR1
+    v = case.get("variants", [])
+    return "probability-2^-30" in v or "observation-near-twin-2^-30" in v or case["pomdp"]["gamma"] == NEAR1
 
 
 def depth_for(pc, case=None):
@@ -422,6 +426,7 @@ def run(ctx):
 
     terms, meta = [], []
     info = {}
+    variant_counts = {}
     counters = {"pbvi_runs": 0, "qmdp_runs": 0, "mirror_runs": 0, "mirror_skipped_budget": 0,
                 "fullobs_cases": 0, "fullobs_closed_sets": 0, "belief_checks": 0, "beliefset_point_checks": 0,
                 "horizon_none": 0, "absorbing_cases": 0, "neg_reward_cases": 0, "multi_call_runs": 0}
@@ -453,6 +458,12 @@ def run(ctx):
         counters["neg_reward_cases"] += int(any(F(r) < 0 for r in pc["reward"].values()))
         counters["fullobs_cases"] += int(case.get("fullobs", False))
         counters["horizon_none"] += int(case["pbvi"]["horizon"] is None)
+        for vname in case.get("variants", []) + (["planner-reused-after-x64-rewards"] if case.get("reuse") else []) + \
+                (["base-object-views-touched-first"] if case.get("touch_first") else []) + \
+                (["non-int-labels"] if set((case.get("labels") or {}).values()) - {"int"} else []) + \
+                (["msdm-order-differs-from-id-order"] if list(order[0]) + list(order[1]) + list(order[2]) != list(range(n)) + list(range(nA)) + list(range(nO)) else []) + \
+                ["eps=" + case["pbvi"]["eps"]] * int(case["pbvi"]["eps"] in ("0", "1")):
+            variant_counts[vname] = variant_counts.get(vname, 0) + 1
 
         # ---------------- PBVI ----------------
         pb = res["pbvi"]
@@ -656,7 +667,8 @@ def run(ctx):
                 worst = max(abs(fr(qr["Q"][s][a]) - Qs[s][a]) for s in range(pc["n"]) for a in range(pc["nA"]))
                 near1 = F(pc["gamma"]) >= 1 - F(1, 10**5)
                 ctx.violation("C08:qmdp-%s:table-is-not-the-optimal-action-values%s" % (name, ":discount-within-1e-5-of-1" if near1 else ""),
-                              dict(base, Q=qr["Q"], Q_exact=[[str(x) for x in r] for r in Qs], worst=str(worst)),
+                              dict(base, Q=qr["Q"], Q_exact=[[str(x) for x in r] for r in Qs], worst=str(worst), solver=name,
+                                   signature_class_rule="suffix ':discount-within-1e-5-of-1' is appended iff the case's discount rate gamma >= 1 - 1e-5 (here gamma = %s): the solver's tie test (np.isclose, rtol 1e-5 relative to |Q| ~ 1/(1-gamma)) cannot separate actions there; for every smaller discount the plain signature is used and is NOT covered by the known finding" % pc["gamma"]),
                               found=bool(worst > tol * 100))
             fullobs = bool(case.get("fullobs"))
             for bi, (e, bq) in enumerate(zip(per_b, qr["queries"])):
@@ -697,8 +709,9 @@ def run(ctx):
     ctx.coverage.update({
         "evaluations": nev,
         "distinct_nontrivial": len(distinct),
-        "rule": "POMDPs from harness/gen_pomdp.py (2..4 states, 1..3 actions, 1..3 observations; informative / uninformative / twin / deterministic observation kernels, 20% identity kernels = fully observable; absorbing states with and without exits; rewards of either sign; gamma in {1/2,3/4,9/10}) x PBVI(min_exp 0..3, max_exp 1..4, eps in {1e-1,1e-2,1e-3}, horizon in {None,1,3,10}) and QMDP(ValueIteration | PolicyIteration); test beliefs = initial + exactly reachable (1-2 steps) + vertices/faces/grid points, plus up to 6 points of the belief set PBVI actually used; distinct = structural hash of (POMDP, configuration); non-trivial = at least one non-absorbing state (all generated cases)",
+        "rule": "POMDPs from harness/gen_pomdp.py (2..4 states, 1..3 actions, 1..3 observations; informative / uninformative / twin / deterministic observation kernels, 20% identity kernels = fully observable; absorbing states with and without exits; rewards of either sign; gamma in {1/2,3/4,9/10} plus boundary discounts 0 (int) and 1-2^-20; variants: duplicated action (exact tie / 2^-30 gap), 2^-30 probabilities, rewards x2^10 / x2^20, rewards on absorbing self-loops, a 1-state/1-action/1-observation case; state/action/observation labels int | str (with "") | tuple (with ()) | float (with 0.0) whose sorted order differs from id order; planner objects reused after a first plan_on on the same POMDP with rewards x64; cached matrices touched before planning) x PBVI(min_exp 0..3, max_exp 1..4, eps in {1e-1,1e-2,1e-3,1,0}, horizon in {None,1,3,10}) and QMDP(ValueIteration | PolicyIteration); test beliefs = initial + exactly reachable (1-2 steps) + vertices/faces/grid points, plus up to 6 points of the belief set PBVI actually used; distinct = structural hash of (POMDP, configuration); non-trivial = at least one non-absorbing state (all generated cases)",
         "samples": [{"case": cases[0], "impl": impl[0]}] if cases else [],
+        "variants": variant_counts,
         "cases": len(cases), "mirror_accepts": mirror_ok, "mirror_ambiguous_near_tie": amb, "mirror_drift": drift,
         **counters,
     })
